@@ -351,8 +351,16 @@ func subConfig(out string, seed uint64, tier string, arg string) {
 				if tier == "thorough" {
 					lim = len(objs)
 				}
+				var sampleObjs []*Obj
 				for i := 0; i < lim && i < len(objs); i++ {
-					o := objs[(i*5)%len(objs)]
+					sampleObjs = append(sampleObjs, objs[(i*5)%len(objs)])
+				}
+				for _, o := range objs {
+					if o.Kind != "cert" { // the few CRLs and OCSP responses are always in: one configurable lint is a CRL lint
+						sampleObjs = append(sampleObjs, o)
+					}
+				}
+				for _, o := range sampleObjs {
 					base, p0 := lintObj(o.reparse(), g)
 					if p0 != "" {
 						continue
